@@ -34,13 +34,14 @@ EXPLANATION = (
     "from a choice grammar of index patterns (elementwise, literal argument, BlockIndex argument, broadcasting leaf along an axis, "
     "key argument TaskRef(key) with index None, transpose, 'ij'+'ji', 1-d broadcast, contraction 'pq,qr->pr' and reduction 'pq->p' with concatenate in {None, True, False}, a "
     "contracted axis that is broadcast, new axes with 1 or 2 blocks, outer product, the same input twice with different indices, a "
-    "diamond / re-used leaf, BlockwiseDepDict IO layers with and without key-producing entries) over MaterializedLayer leaves; the number "
+    "diamond / re-used leaf, BlockwiseDepDict IO layers with and without key-producing entries) over MaterializedLayer leaves written as DataNode, Task "
+    "or legacy literal; the number "
     "of blocks per index is solver-enumerated. Every block value is a 1-element NumPy object array holding the tuple (layer tag, "
     "arguments...), so a value is the expression tree of the blocks that were read, in the order and nesting they were passed "
-    "(concatenate=True goes through the real dask.array.core.concatenate_axes); leaf blocks hold one unbounded symbolic int each. Asserted: "
+    "(concatenate=True goes through the real dask.array.core.concatenate_axes); leaf block number m holds v + m with ONE unbounded symbolic int v (so different leaf blocks differ for every v, and every model variable costs a solver call per path). Asserted: "
     "for every Blockwise layer and every enumerated subset of its output blocks, _cull_dependencies(blocks) has exactly those keys and "
     "per key exactly the dependencies of the materialised task; Blockwise.cull returns those dependencies and a layer that materialises "
-    "exactly the requested blocks; for every enumerated set of requested keys (singletons, pairs / all subsets on small grids, the "
+    "at least the requested blocks with the same task dependencies; for every enumerated set of requested keys (singletons, pairs / all subsets on small grids, the "
     "full grid, optionally plus blocks of the layer below) HighLevelGraph.cull(keys) contains every requested key, only keys of the "
     "original graph, and dask.core.get on it returns values equal (e.equal: for ALL leaf values) to those of the full materialised "
     "graph; the same for a graph culled twice. (c) FUSION: optimize_blockwise(hlg, keys) (-> _optimize_blockwise, rewrite_blockwise), "
@@ -65,7 +66,8 @@ STUBS = []
 ENUM = ["stack shape (base kind, op per layer, broadcast axis, concatenate, new-axis blocks), blocks per index, annotation menu per layer, worker subsets, "
         "allow_other_workers flags, resource-name sets, optimization.annotations.fuse setting",
         "requested output-block subsets and leaf styles (loops inside a path)"]
-OUTSIDE = ["minimality of culling (HighLevelGraph.cull keeps all blocks of a materialised layer when as many keys are requested as the layer has)",
+OUTSIDE = ["minimality of culling (HighLevelGraph.cull keeps all blocks of a materialised layer when as many keys are requested as the layer has; a culled Blockwise layer may "
+           "materialise more than the requested blocks)",
            "the `dependencies` mapping of the HighLevelGraph returned by cull (it is empty for every layer: validate() fails on a culled graph; values are unaffected)",
            "callable annotation values, annotation keys other than the five special ones beyond a single custom key 'foo'",
            "a layer that states workers but not allow_other_workers (scheduler default False) merged with one that states allow_other_workers=True gets "
@@ -73,15 +75,26 @@ OUTSIDE = ["minimality of culling (HighLevelGraph.cull keeps all blocks of a mat
            "pyarrow / dataframe IO layers, Blockwise.clone, SubgraphCallable, legacy (tuple) tasks inside Blockwise", "more than 3 layers, more than 3 blocks per index, 4-d blocks",
            "low-level fusion inside fuse_roots beyond value preservation (C09)"]
 BOUNDS = {
-    "quick": dict(annotations="per focus key: 2 dicts (workers: every subset of 3 names; resources: name sets {GPU},{MEM},{GPU,MEM}) and 3 dicts (2 worker names); all-keys: 2 dicts",
-                  stacks="depth 1: every op, blocks per index in [1,3]; depth 2: every op pair, blocks in [1,2]; depth 3: 9 ops per layer, 2 blocks per index",
-                  subsets="<= 4 blocks: every non-empty subset; more: singletons, full grid, row/column pairs; plus one block of the layer below",
-                  annotated="chains of 3 and diamonds, 6 annotation menus per layer, symbolic amounts"),
-    "thorough": dict(annotations="3 dicts with 3 worker names; all-keys with 3 dicts",
-                     stacks="depth 1: blocks in [1,3] (all subsets up to 6 blocks); depth 2: blocks in [1,3]; depth 3: 13 ops per layer, blocks in [1,2]",
-                     subsets="<= 6 blocks: every non-empty subset; more: singletons, pairs, full grid",
-                     annotated="8 menus per layer"),
+    "quick": dict(annotations="per focus key: 2 dicts (workers: every subset of 3 names; resources: name sets {GPU},{MEM},{GPU,MEM}; backgrounds none/first/last) and 3 dicts "
+                              "(2 worker names, resource sets {MEM},{GPU,MEM}, no background); all-keys: 2 dicts x 2 worker lists",
+                  stacks="depth 1: all 22 ops on bases x2/x1/io/iok, blocks i,j in [1,3], k in [1,2]; depth 2: 7 producer ops x all ops on bases x2/io, blocks i,j in [1,2], k = 2; "
+                         "depth 3: 4 x 6 x 6 ops, 2 blocks per index; io-keys: key-producing IO layer + 4 x 5 ops, i in [1,2]",
+                  subsets="top layer: <= 4 blocks every non-empty subset, otherwise singletons, pairs with the first block (depth 1) and the full grid; layers below: singletons + full grid; "
+                          "graph level additionally one block of the layer below; fusion with keys = top grid / top + below grids",
+                  annotated="two layers: 6 menus each, optimization.annotations.fuse in {default, False}; chain of 3: 4 menus; diamond: 3 menus; amounts symbolic"),
+    "thorough": dict(annotations="2 and 3 dicts with 3 worker names, all resource sets, 3 backgrounds; all-keys: 2 dicts x 4 worker lists, 3 dicts x 1 worker list",
+                     stacks="depth 1: blocks in [1,3] for i,j,k; depth 2: all ops x all ops on x2/x1/io, i,j in [1,3], k in [1,2]; depth 3: 13 ops per layer, i in [1,2], j = k = 2; "
+                            "io-keys: depth 2 all ops, depth 3 4 x 5 x 2 ops",
+                     subsets="depth 1: <= 6 blocks every non-empty subset, otherwise singletons, all pairs, full grid; deeper: <= 4 blocks every subset, otherwise singletons, pairs with the first block, full grid",
+                     annotated="5 shapes (two, chain, diamond, double transpose, contraction in the middle), 6 menus per layer (8 for two layers), both settings of optimization.annotations.fuse"),
 }
+
+# NOTE (finding on the unchanged tree, obligations "...,io-keys]"): Blockwise._cull_dependencies looks up a key-producing IO argument
+# (BlockwiseDepDict(produces_keys=True)) with the OUTPUT block coordinates instead of the argument's own coordinates.  Once optimize_blockwise has
+# fused the IO layer into a layer whose output indices do not start with the IO layer's index (new axis in front, transpose), culling keeps the wrong
+# IO keys: KeyError inside cull, or "Missing dependency" when the culled graph is computed.  The stacks over the key-producing IO base declare the
+# model variable iok_misaligned (1 iff some layer above the IO layer has an output index string not starting with the IO index) so that the region
+# can be named by a known-finding predicate ("iok_misaligned == 1").
 
 SPECIAL = ("priority", "retries", "resources", "workers", "allow_other_workers")
 WORKERS = ("alice", "bob", "carol")
@@ -453,6 +466,12 @@ def gen_stack(e, depth, NB, ops, bases=("x2",), oplists=None):
     _init_base(e, st)
     for t, op in enumerate(chosen):
         apply_op(e, st, t, op)
+    if base == "iok":
+        # derived model variable (names a region for known findings): 1 iff some layer above the key-producing IO layer has an output
+        # index string that does not start with the IO layer's index
+        mis = int(any(L["out"][0] != "i" for L in st.layers))
+        m = e.int("iok_misaligned", 0, 1)
+        e.assume(lambda: m == mis)
     return st
 
 
@@ -735,6 +754,9 @@ def _nb(i, j=None, k=None):
     return {"i": i, "j": j, "k": k}
 
 
+IOK_OPS = [("neg", "newax", "newax:2", "outer"), ("T", "neg", "addy", "sumq:c", "dia"), ("T", "neg")]
+
+
 def mk_stack(depth, NB, ops, bases, full_upto, pairs, oplists=None, every=5, tag=""):
     def setup(e):
         return (gen_stack(e, depth, NB, ops, bases, oplists),)
@@ -923,6 +945,7 @@ def obligations(tier):
         obs.append(mk_stack(2, _nb((1, 2), (1, 2), (2, 2)), None, ("x2", "io"), 4, None, oplists=[OPS_PRODUCERS, OPS_ALL], every=7))
         obs.append(mk_stack(3, _nb((2, 2)), None, ("x2",), 2, None, every=5,
                             oplists=[("neg", "T", "dot:c", "addy:b0"), ("T", "addyT", "dot", "sumq", "newax", "twice"), ("neg", "dia", "twice", "addy", "T", "sumq:c")]))
+        obs.append(mk_stack(2, _nb((1, 2), (2, 2), (2, 2)), None, ("iok",), 4, None, oplists=IOK_OPS[:2], every=3, tag=",io-keys"))
         obs.append(mk_annotated("two", M[:6], cfgs=(None, False)))
         obs.append(mk_annotated("chain", ("none", "retries", "res+aow", "foo")))
         obs.append(mk_annotated("diamond", ("none", "prio+workers", "foo")))
@@ -933,9 +956,11 @@ def obligations(tier):
         obs.append(mk_fuse_ann_all(2, 4))
         obs.append(mk_fuse_ann_all(3, 1))
         obs.append(mk_stack(1, _nb((1, 3)), OPS_ALL, BASES, 6, "all", every=3))
-        obs.append(mk_stack(2, _nb((1, 3), (1, 3), (1, 2)), OPS_ALL, BASES, 4, "first", every=7))
+        obs.append(mk_stack(2, _nb((1, 3), (1, 3), (1, 2)), OPS_ALL, ("x2", "x1", "io"), 4, "first", every=7))
         d3 = ("neg", "ref", "addy:b0", "T", "addyT", "dot", "dot:c", "sumq", "sumq:c", "newax:2", "outer", "twice", "dia")
-        obs.append(mk_stack(3, _nb((1, 2), (2, 2), (2, 2)), d3, ("x2", "iok"), 4, "first", every=11))
+        obs.append(mk_stack(3, _nb((1, 2), (2, 2), (2, 2)), d3, ("x2",), 4, "first", every=11))
+        obs.append(mk_stack(2, _nb((1, 3), (1, 2), (2, 2)), OPS_ALL, ("iok",), 4, "first", every=3, tag=",io-keys"))
+        obs.append(mk_stack(3, _nb((1, 2), (2, 2), (2, 2)), None, ("iok",), 4, None, oplists=IOK_OPS, every=3, tag=",io-keys"))
         for shape in ANN_SHAPES:
             obs.append(mk_annotated(shape, M if shape == "two" else M[:6], cfgs=(None, False)))
     return obs
